@@ -1,7 +1,5 @@
 package pongo2
 
-import "reflect"
-
 type tagSetNode struct {
 	name       string
 	expression IEvaluator
@@ -14,17 +12,7 @@ func (node *tagSetNode) Execute(ctx *ExecutionContext, writer TemplateWriter) *E
 		return err
 	}
 
-	if value.val.IsValid() && value.val.CanAddr() && value.val.CanInterface() {
-		switch value.val.Kind() {
-		case reflect.Bool, reflect.String, reflect.Float32, reflect.Float64,
-			reflect.Int, reflect.Int8, reflect.Int16, reflect.Int32, reflect.Int64,
-			reflect.Uint, reflect.Uint8, reflect.Uint16, reflect.Uint32, reflect.Uint64:
-			// Bind a copy: the number, text or flag may be a field of an object
-			// that is updated in place (the forloop record), and the name is
-			// to keep the value it has been given.
-			value = &Value{val: reflect.ValueOf(value.val.Interface()), safe: value.safe}
-		}
-	}
+	value = detached(value)
 
 	ctx.Private[node.name] = value
 	return nil
